@@ -6,8 +6,10 @@ use std::io::Write;
 use std::panic::{catch_unwind, AssertUnwindSafe};
 use std::time::Instant;
 
-fn text_of(kind: &str) -> &'static str {
-    match kind {
+fn text_of(kind: &str) -> &'static [u8] {
+    let s: &'static str = match kind {
+        "vBin" => return b"v 1 \xff\xfe 0",
+        "bin" => return b"\xff\xfe\xc3\x28",
         "sSAT" => "s SATISFIABLE",
         "sUNSAT" => "s UNSATISFIABLE",
         "sOther" => "s UNKNOWN",
@@ -22,7 +24,8 @@ fn text_of(kind: &str) -> &'static str {
         "vOOB" => "v 9 0",
         "vNonLit" => "v x 0",
         _ => panic!("unknown line kind"),
-    }
+    };
+    s.as_bytes()
 }
 
 fn solve_json(s: &mut dyn SatSolver) -> Value {
@@ -79,15 +82,15 @@ pub fn cmd_ext(a: &Args) {
         let res = util::par_map(jobs, threads, |(i, kinds)| {
             util::install_quiet_panic_hook();
             let path = format!("{}/reply_{}.txt", tmp, i);
-            let mut t = String::new();
+            let mut t: Vec<u8> = vec![];
             for (j, k) in kinds.iter().enumerate() {
-                t.push_str(text_of(k));
+                t.extend_from_slice(text_of(k));
                 // the final newline is sometimes missing
                 if j + 1 < kinds.len() || i % 3 != 0 {
-                    t.push('\n');
+                    t.push(b'\n');
                 }
             }
-            std::fs::File::create(&path).unwrap().write_all(t.as_bytes()).unwrap();
+            std::fs::File::create(&path).unwrap().write_all(&t).unwrap();
             let mut s = ExternalSatSolver::new("cat".to_string(), vec![path.clone()]);
             s.add_clause(vec![Literal::from(1), Literal::from(-2), Literal::from(3)]);
             let j = solve_json(&mut s);
